@@ -21,7 +21,7 @@ PROPS = {
              "family (IPv4 only / IPv6 only / dual), strip-vlan, extra routes, pod-wide MultiNetwork on/off and one default-route interface; the real config generators run on fake links and every rule / "
              "non-main-table route must name GetRouteTableID(that link's index), each family of a multi-network interface must have its source rule and default route in that table, interfaces never share a table "
              "(veth host side: same per ENI); non-trivial = MultiNetwork with >= 2 interfaces or an IPv6-only interface. "
-             "Name cases: (namespace, name, prefix <= 4 bytes, 1..8 interface names); non-trivial = >= 2 distinct interfaces. distinct = distinct scenario hash",
+             "Name cases: (namespace = DNS label of 1..63 bytes, pod name = DNS subdomain of 1..253 bytes with lengths around 63, 110..160 and 245..253 over-represented, or arbitrary strings; prefix <= 4 bytes, 1..8 interface names incl. ones differing in the last byte); non-trivial = >= 2 distinct interfaces. distinct = distinct scenario hash",
         assumptions=[
             "tc u32 semantics: a key matches when the big-endian 32-bit word at byte offset Off of the network header ANDed with Mask equals Val; keys are ANDed; an empty key list matches every packet; IPv4 src/dst at 12/16, IPv6 src/dst at 8/24",
             "net.IP cannot tell an IPv4-mapped IPv6 address (::ffff:a.b.c.d) from IPv4, so neither terway nor the reference can name one as IPv6: "
